@@ -21,7 +21,8 @@ RULE = ('Headers **text, **dynam, **dyn, **harm, **mxhm, **fing and three unknow
         'own category; (4) arbitrary strings without tab/newline and malformed kern tokens: never raise, and either '
         'equal the kern importer\'s structural token or are verbatim with the own category.  Document level: the same '
         'rows presented under two different non-kern headers give the same measure index and the same structural '
-        'tokens.  Non-trivial: a structural token other than a plain = * . ; free text that contains a character the '
+        'tokens; the same column twice side by side under two different types gives each cell its own type\'s token.  '
+        'Non-trivial: a structural token other than a plain = * . ; free text that contains a character the '
         'kern lexer knows.')
 ASSUMPTIONS = ['own categories from each importer\'s documentation: **text LYRICS, **dynam/**dyn DYNAMICS, **harm HARMONY, **fing '
                'FINGERING, unknown types OTHER; for **mxhm either HARMONY (used by the importer) or MHXM (reserved by '
@@ -146,6 +147,45 @@ def doc_cases(draw):
     return {'doc': doc, 'h1': h1, 'h2': h2}
 
 
+@st.composite
+def twin_cases(draw):
+    """the same column twice, side by side, under two DIFFERENT non-kern spine types (plus sometimes a kern spine in
+    front whose cells are drawn from the same words)"""
+    P = D.profile('full', types=['**text'], min_spines=1, max_spines=1, splits=False, partial_term=False, force_kern=False, max_body=10)
+    doc = draw(D.documents(P))
+    h1, h2 = draw(st.lists(st.sampled_from(HEADS), min_size=2, max_size=2, unique=True))
+    for row in doc['rows']:
+        if 'c' in row:
+            c = row['c'][0]
+            row['c'] = [dict(c), dict(c)]
+            if c['k'] == 'header':
+                row['c'] = [G.header_cell(h1), G.header_cell(h2)]
+    doc['types'] = [h1, h2]
+    return {'twin': doc, 'h1': h1, 'h2': h2}
+
+
+def check_twin(case):
+    doc = case['twin']
+    text = S.render(doc)
+    kd = K.loads_clean(text, 'twin document')
+    a = S.analyze(doc)
+    n = 0
+    for i in a.cell_rows:
+        if i == a.header_row:
+            continue
+        for k, node in enumerate(kd.tree.stages[i + 1]):
+            h = doc['types'][a.spines[i][k]]
+            t = node.token
+            cell = doc['rows'][i]['c'][k]
+            n += 1
+            if t.category.name in STRUCT:
+                continue
+            if not (t.encoding == cell['t'] and t.export() == cell['t'] and t.category.name in own(h)):
+                raise Bad('twin-wrong-token', f'cell {cell["t"]!r} in the {h} column (col {k}) is imported as {tsig(t)}; the same text stands in the '
+                                              f'{doc["types"][1 - k]} column beside it\n{text}')
+    return Result(nontrivial=n > 4, classes=['twin-columns', 'pair=' + case['h1'] + '/' + case['h2']], sample=text, key=text, evals=n)
+
+
 def rehead(doc, h):
     import copy
     d = copy.deepcopy(doc)
@@ -200,7 +240,10 @@ def run(ctx):
     n = 500 if ctx.quick else 5000
     ctx.run_hypothesis(token_cases(), check_tokens, max_examples=n, label='tokens')
     ctx.run_hypothesis(doc_cases(), check_doc, max_examples=max(60, n // 6), salt=1, label='documents')
+    ctx.run_hypothesis(twin_cases(), check_twin, max_examples=max(60, n // 6), salt=2, label='twin-columns')
 
 
 def replay(case):
+    if 'twin' in case:
+        return check_twin(case)
     return check_doc(case) if 'doc' in case else check_tokens(case)
